@@ -1223,6 +1223,14 @@ func (d *DotGit) SetRef(r, old *plumbing.Reference) error {
 
 	fileName := r.Name().String()
 
+	// A directory left behind by deleted references that were nested under
+	// this name (refs/heads/a after refs/heads/a/b is gone) must not block
+	// the name; git prunes such directories too. Remove only succeeds on an
+	// empty directory, so references still stored below it are safe.
+	if fi, err := d.fs.Lstat(fileName); err == nil && fi.IsDir() {
+		_ = d.fs.Remove(fileName)
+	}
+
 	return d.setRef(fileName, content, old)
 }
 
